@@ -29,6 +29,11 @@ Proof. unfold Rnat. now rewrite Nat2Z.inj_succ, succ_IZR. Qed.
 Lemma Rnat_INR k : Rnat k = INR k.
 Proof. unfold Rnat. now rewrite <- INR_IZR_INZ. Qed.
 
+Lemma Rnat_SS_ne_1 k : Rnat (S (S k)) <> 1.
+Proof. rewrite Rnat_INR, !S_INR. pose proof (pos_INR k). lra. Qed.
+Lemma Rnat_1 : Rnat 1 = 1.
+Proof. reflexivity. Qed.
+
 Ltac kill_eqb :=
   repeat match goal with
   | |- context [Reqb ?a ?b] =>
@@ -108,8 +113,11 @@ Lemma abc_deriv_derive x a k c xl xh :
   is_derive (fun t => abc_deriv (A:=R) t a (Rnat (S (S k))) c xl xh) x (abc_hess (A:=R) x a (Rnat (S (S k))) c xl xh).
 Proof.
   destruct (Req_EM_T xl xh) as [->|Hne].
-  - unfold abc_hess, abc_deriv. numR. kill_eqb; try congruence. auto_derive; [exact I|ring].
-  - unfold abc_hess, abc_deriv. numR. kill_eqb; [contradiction|]. rewrite Rpw_Rnat_m2.
+  - unfold abc_hess, abc_deriv. numR. destruct (Reqb xh xh) eqn:E; [|apply Reqb_false in E; congruence].
+    auto_derive; [exact I|ring].
+  - unfold abc_hess, abc_deriv. numR. destruct (Reqb xl xh) eqn:E; [apply Reqb_true in E; contradiction|].
+    destruct (Reqb (Rnat (S (S k))) 1) eqn:E1; [apply Reqb_true in E1; exfalso; now apply (Rnat_SS_ne_1 k)|].
+    rewrite Rpw_Rnat_m2.
     apply (is_derive_ext (fun t => - c * Rnat (S (S k)) * (1 + (a - 1) * ((t - xl) / (xh - xl))) ^ (S k) * ((1 - a) / (xh - xl)))).
     + intros t. now rewrite Rpw_Rnat_m1, abc_q_affine.
     + rewrite abc_q_affine by auto. rewrite Rpw_2. auto_derive; [exact I|].
@@ -118,20 +126,23 @@ Proof.
       unfold Rminus, Rdiv. match goal with |- context [?b ^ k] => set (B := b ^ k) end. field. lra.
 Qed.
 
-(* exponent 1: the second derivative is 0 wherever q <> 0 *)
+(* exponent 1: the cost is linear in q, the second derivative is 0 (the hypothesis is kept for compatibility, it is not needed) *)
 Lemma abc_deriv_derive_b1 x a c xl xh : (xl = xh \/ abc_q (A:=R) x xl xh a <> 0) ->
   is_derive (fun t => abc_deriv (A:=R) t a (Rnat 1) c xl xh) x (abc_hess (A:=R) x a (Rnat 1) c xl xh).
 Proof.
-  intros Hq.
+  intros _.
   destruct (Req_EM_T xl xh) as [->|Hne].
-  - unfold abc_hess, abc_deriv. numR. kill_eqb; try congruence. auto_derive; [exact I|ring].
-  - destruct Hq as [?|Hq]; [contradiction|].
-    unfold abc_hess, abc_deriv. numR. kill_eqb; [contradiction|].
+  - unfold abc_hess, abc_deriv. numR. destruct (Reqb xh xh) eqn:E; [|apply Reqb_false in E; congruence].
+    auto_derive; [exact I|ring].
+  - unfold abc_hess, abc_deriv. numR. destruct (Reqb xl xh) eqn:E; [apply Reqb_true in E; contradiction|].
+    destruct (Reqb (Rnat 1) 1) eqn:E1; [|apply Reqb_false in E1; exfalso; apply E1; reflexivity].
     apply (is_derive_ext (fun t => - c * Rnat 1 * 1 * ((1 - a) / (xh - xl)))).
     + intros t. replace (Rnat 1 - 1) with (Rnat 0) by (unfold Rnat; simpl; ring). now rewrite Rpw_Rnat.
-    + auto_derive; [exact I|]. unfold Rnat at 2 3. simpl. ring.
+    + auto_derive; [exact I|]. ring.
 Qed.
 
 Lemma abc_zero_width x a b c xl :
   abc_cost (A:=R) x a b c xl xl = 0 /\ abc_deriv (A:=R) x a b c xl xl = 0 /\ abc_hess (A:=R) x a b c xl xl = 0.
-Proof. unfold abc_cost, abc_deriv, abc_hess. numR. kill_eqb; try contradiction; auto. Qed.
+Proof.
+  unfold abc_cost, abc_deriv, abc_hess. numR. destruct (Reqb xl xl) eqn:E; [auto|apply Reqb_false in E; congruence].
+Qed.
